@@ -332,7 +332,7 @@ def func_int_general(Y, X, basis_func, rcond=1.E-6):
         r1, n, r2 = G.shape
         M = np.transpose(G, [1, 0, 2]).reshape(n, -1)
 
-        Q = sp.linalg.lstsq(H_mat, M, overwrite_a=False, overwrite_b=True,
+        Q = sp.linalg.lstsq(H_mat, M, overwrite_a=False, overwrite_b=False,
             cond=rcond)[0]
         Q = np.transpose(Q.reshape(-1, r1, r2), [1, 0, 2])
         A.append(Q)
